@@ -52,8 +52,9 @@ def build_config(c, kind, rng):
         g.alt_under = (u, "/r/s")
         g.watch = [u]
         c.op("createdirall", vfx.ps(u, "r/s"))
-    elif kind in ("ovl_mm", "ovl_m", "ovl_mmm", "ovl_pp", "ovl_mp"):
+    elif kind in ("ovl_mm", "ovl_m", "ovl_mmm", "ovl_pp", "ovl_mp", "ovl_4", "ovl_pmpm"):
         kinds = {"ovl_mm": ["mem", "mem"], "ovl_m": ["mem"], "ovl_mmm": ["mem", "mem", "mem"],
+                 "ovl_4": ["mem", "mem", "mem", "mem"], "ovl_pmpm": ["phys", "mem", "phys", "mem"],
                  "ovl_pp": ["phys", "phys"], "ovl_mp": ["mem", "phys"]}[kind]
         for b in kinds:
             c.base(b)
